@@ -549,7 +549,11 @@ impl Check for RwCheck {
                 }
             }
         }
-        if self.id == "C14" || (self.id == "C08R" && seed % 2 == 0) || (self.id == "C13R" && seed % 3 == 0) {
+        if self.id == "C20A" {
+            run.set("modify", 1);
+            run.set("probes", 0);
+        }
+        if self.id == "C14" || self.id == "C20A" || (self.id == "C08R" && seed % 2 == 0) || (self.id == "C13R" && seed % 3 == 0) {
             // also raw unions (not model-valid): analysis propagation does not need validity
             let mut w = Rng::stream(seed, "unions");
             let mut binder = 300;
@@ -598,6 +602,7 @@ impl Check for RwCheck {
             "C07S" => "explanations build: the C03 workload (rewriting over LA through apply_rewrites and Runner::run, conditional rules, rules that move terms under binders; without the b[x := t] rule and the modify hook); after every iteration explain_equivalence is asked why sampled inserted terms equal the smallest term of their class and each other, and the proof DAG is re-checked by M_proof with explicit leaves accepted only as instances of a pool rule carrying that rule's name; non-trivial = at least one iteration changed the e-graph and at least one rule leaf was checked; distinct = distinct canonical key",
             "C05R" => "the C03 workload (rewriting over LA: big, cyclic, redundant-slot classes); after every iteration the left patterns of the rules just applied and of 3 further pool rules are matched with ematch_all: every substitution binds every variable, the instantiated pattern is found by bottom-up lookup (nothing inserted), the fingerprint is unchanged; non-trivial = at least one iteration changed the e-graph and 5 substitutions were validated; distinct = distinct canonical key",
             "C09R" => "the C03 workload; after every iteration sampled inserted terms (alpha-renamed) and the smallest term of their class are looked up (lookup_rec_expr must succeed, agree with the old handle, leave the fingerprint unchanged) and inserted again (no class may be allocated, the result equals the old handle and carries exactly the canonical handle's slots); non-trivial = at least one iteration changed the e-graph and 3 terms were re-inserted; distinct = distinct canonical key",
+            "C20A" => "the C03 workload over LA with the simulator's analysis and its modify hook (constant folding inserts and unites inside rebuild) plus raw unions, executed twice, each time in a fresh thread with the same knobs; the transcripts (per operation: result, progress measure, node count, ids, and per class its slots, e-nodes in listing order and datum) must be identical; non-trivial = at least one iteration changed the e-graph; distinct = distinct canonical key",
             "C08R" => "the C03 workload (rewriting over LA with analysis, modify hook, both substitution methods) checked only for C08's clauses: no panic / fuel exhaustion in any operation, EGraph::check and the API-level structure clauses after every operation; non-trivial = at least one iteration changed the e-graph; distinct = distinct canonical key",
             _ => "",
         }
@@ -614,6 +619,9 @@ impl Check for RwCheck {
     fn exec(&self, run: &Run) -> Outcome {
         if self.id == "C11R" {
             return exec_c11r(run);
+        }
+        if self.id == "C20A" {
+            return exec_c20a(run);
         }
         let mut out = Outcome::default();
         seam::apply(&run.knobs());
@@ -1618,5 +1626,85 @@ fn exec_scale(run: &Run) -> Outcome {
     super::matching::finish_counters(&mut out, run);
     out.log_hash = crate::rng::hash_str(&format!("scale/{claimed_saturated}/{}", s.eg.total_number_of_nodes()));
     out.nontrivial = claimed_saturated;
+    out
+}
+
+
+/// the whole LA history in the current (fresh) thread, rendered operation by operation
+fn la_transcript(run: &Run) -> (Vec<String>, u64) {
+    seam::apply(&run.knobs());
+    CONST_CONFLICT.with(|c| c.set(None));
+    let mut s: Sess<LA, SimAn> = Sess::new(new_la_egraph(run), run.get("naming") as u32);
+    let pb = Rc::new(RefCell::new(200u64));
+    let budget = effective_budget(run);
+    let mut out: Vec<String> = Vec::new();
+    let mut changes = 0u64;
+    for (k, op) in run.ops.iter().enumerate() {
+        s.cur_op = k;
+        if s.eg.total_number_of_nodes() > budget && (op.name == "rewrite" || op.name == "runner") {
+            continue;
+        }
+        let before = s.eg.progress();
+        match catch_op(|| exec_la_op(&mut s, op, run, &pb)) {
+            Err(p) => {
+                if p.msg.starts_with("harness:") || p.is_harness() {
+                    panic!("harness panic: {} at {}", p.msg, p.loc);
+                }
+                out.push(format!("{k} {} PANIC {}", op.name, p.norm_msg()));
+                break;
+            }
+            Ok(r) => out.push(format!("{k} {} -> {r:?}", op.name)),
+        }
+        if before != s.eg.progress() && k > 0 {
+            changes += 1;
+        }
+        let line = catch_op(|| {
+            let p = s.eg.progress();
+            let mut t = format!("  progress {} {} {} {} nodes {}", p.number_of_classes, p.number_of_live_classes, p.sum_of_slots, p.sum_of_symmetries, s.eg.total_number_of_nodes());
+            for id in s.eg.ids() {
+                t.push_str(&format!("\n  {id:?} slots {:?} data {:?} nodes", s.eg.slots(id), s.eg.analysis_data(id)));
+                for n in s.eg.enodes(id) {
+                    t.push_str(&format!(" {n:?}"));
+                }
+            }
+            for tr in s.tracked.iter().take(8) {
+                t.push_str(&format!("\n  handle {:?} -> {:?}", tr.h, s.eg.find_applied_id(&tr.h)));
+            }
+            t
+        });
+        match line {
+            Ok(t) => out.push(t),
+            Err(p) => {
+                out.push(format!("{k} PANIC in listing {}", p.norm_msg()));
+                break;
+            }
+        }
+    }
+    (out, changes)
+}
+
+/// C20 for the analysis / modify-hook paths: the same LA history in two fresh threads
+fn exec_c20a(run: &Run) -> Outcome {
+    let mut out = Outcome::default();
+    let (r1, r2) = (run.clone(), run.clone());
+    let (t1, changes) = crate::exec::in_fresh_thread(move || la_transcript(&r1));
+    let (t2, _) = crate::exec::in_fresh_thread(move || la_transcript(&r2));
+    out.ops_executed = run.ops.len() as u64 * 2;
+    if t1.iter().any(|l| l.contains("PANIC")) {
+        out.discarded = Some("panic".into());
+    } else if t1 != t2 {
+        let k = t1.iter().zip(t2.iter()).position(|(a, b)| a != b).unwrap_or(t1.len().min(t2.len()));
+        let a = t1.get(k).cloned().unwrap_or_default();
+        let b = t2.get(k).cloned().unwrap_or_default();
+        // first differing position inside the line
+        let pos = a.bytes().zip(b.bytes()).position(|(x, y)| x != y).unwrap_or(0);
+        let from = pos.saturating_sub(60);
+        let cut = |s: &str| -> String { s.chars().skip(from).take(200).collect() };
+        out.violations.push(viol("C20", "same_in_fresh_thread", format!("transcript line {k} differs between two executions of the same history in fresh threads: ...{} vs ...{}", cut(&a), cut(&b)), 0));
+    }
+    out.bump("fresh_thread_replays");
+    super::matching::finish_counters(&mut out, run);
+    out.log_hash = crate::rng::hash_str(&t1.join("\n"));
+    out.nontrivial = out.discarded.is_none() && changes > 0;
     out
 }
